@@ -99,15 +99,54 @@ def _ob(op, kind="K_IO", st=1, ctx=0, what=None, **kw):
     if _T: d["timeout"] = _T
     return d
 
+EVENT_OPS = ["ADD", "DEL", "DEL_BLOCK", "DEL_NOBLOCK", "ACTIVE", "ACTIVE_LATER", "PRIORITY_SET", "REMOVE_TIMER", "PENDING", "FINALIZE", "BASE_SET"]
+NO_LOOP_CTX = ("BASE_FREE", "PRIORITY_INIT")   # documented as illegal while the loop runs
+
 def obligations(tier):
     if os.environ.get("C08_PROBE"):
         return [_ob(*x.split(":")[:2], st=int(x.split(":")[2]), ctx=int(x.split(":")[3])) for x in os.environ["C08_PROBE"].split(",")]
     obs = []
+    seen = set()
+    def add(op, **kw):
+        o = _ob(op, **kw)
+        if o["name"] not in seen:
+            seen.add(o["name"]); obs.append(o)
+    # every entry point once, no loop running, target = added I/O event
     for op in OPS:
         if op == "ONCE":
-            for w in range(7): obs.append(_ob(op, what=w))
+            for w in range(7): add(op, what=w)
         elif op == "NEW_FREE":
-            for w in ((1, 3) if tier == "quick" else range(7)): obs.append(_ob(op, what=w))
+            for w in ((1, 3) if tier == "quick" else range(7)): add(op, what=w)
         else:
-            obs.append(_ob(op))
+            add(op)
+    if tier == "quick":
+        # other kinds / states / calling contexts for the calls that do the real work
+        for op in ("ADD", "DEL", "ACTIVE"):
+            for kind in ("K_TIMER", "K_SIG"):
+                for st in (0, 1, 2): add(op, kind=kind, st=st)
+            add(op, st=0); add(op, st=2)
+        for op in ("ADD", "DEL", "DEL_BLOCK", "ACTIVE", "LOOPBREAK", "LOOP", "FINALIZE", "GETTERS", "NEW_FREE", "LOOPEXIT", "WATCH", "NOTIFIABLE", "DEFERRED"):
+            for ctx in (1, 2):
+                add(op, ctx=ctx, **({"what": 1} if op == "NEW_FREE" else {}))
+        for ctx in (1, 2): add("ONCE", ctx=ctx, what=1)
+        add("DEL_BLOCK", kind="K_SIG", st=1, ctx=2)
+    else:
+        for op in EVENT_OPS:
+            for kind in KINDS:
+                for st in (0, 1, 2):
+                    for ctx in (0, 1, 2):
+                        if ctx == 1 and st != 2: continue     # (inside its own callback the target was active)
+                        add(op, kind=kind, st=st, ctx=ctx)
+        for op in OPS:
+            if op in EVENT_OPS or op in NO_LOOP_CTX: continue
+            for ctx in (1, 2):
+                if op == "ONCE":
+                    for w in range(7): add(op, ctx=ctx, what=w)
+                elif op == "NEW_FREE":
+                    for w in range(7): add(op, ctx=ctx, what=w)
+                else:
+                    add(op, ctx=ctx)
+        # the shipped configuration compiles EVUTIL_ASSERT out
+        for op in ("ADD", "DEL", "ONCE", "LOOP", "BASE_FREE", "FINALIZE"):
+            o = _ob(op, **({"what": 1} if op == "ONCE" else {})); o["name"] += "_ndebug"; o["ndebug"] = True; o["desc"] += " (NDEBUG build)"; obs.append(o)
     return obs
